@@ -46,6 +46,9 @@ func (x *g) advBatch(odfi string, batchNumber int) (ach.Batcher, error) {
 
 	b := ach.NewBatchADV(bh)
 	n := x.r.Range(1, x.o.MaxEntries)
+	// returned advices: every entry of the batch carries an Addenda99 (BatchADV.Validate refuses one on a
+	// forward entry); the addenda records count as records of the batch and of the file
+	returned := x.o.ADVReturns && x.r.Chance(1, 2)
 	for i := 0; i < n; i++ {
 		e := ach.NewADVEntryDetail()
 		if x.r.Bool() {
@@ -75,6 +78,19 @@ func (x *g) advBatch(odfi string, batchNumber int) (ach.Batcher, error) {
 		e.JulianDay = x.pickInt(1, 50, 59, 60, 228, 365, 366, x.r.Range(1, 366))
 		e.SequenceNumber = i + 1 // Create() renumbers
 		e.Category = ach.CategoryForward
+		if returned {
+			a := ach.NewAddenda99()
+			a.ReturnCode = rngPickStr(x, returnCodes)
+			a.OriginalTrace = x.nonZeroDigits(15)
+			a.OriginalDFI = x.routing()[:8]
+			if x.r.Chance(3, 4) {
+				a.AddendaInformation = x.text(44, aText)
+			}
+			a.TraceNumber = odfi + fmt.Sprintf("%07d", i+1)
+			e.Addenda99 = a
+			e.AddendaRecordIndicator = 1
+			e.Category = ach.CategoryReturn
+		}
 		b.AddADVEntry(e)
 	}
 	if err := b.Create(); err != nil {
